@@ -1,7 +1,8 @@
 (* C34 — Multi-board output stays inside the output location, one file per board.  Statements only.
 
-   outputs ext out root = (files written, directories RemoveAll'ed) by d2cli's render for the board
-   tree [root] and output path  out ++ ext  (out: segments of the path without its extension).
+   outputs ext out root = (files written, directories RemoveAll'ed) by the d2 CLI (resolveLinks'
+   validation of the board names, then render) for the board tree [root] and output path  out ++ ext
+   (out: segments of the path without its extension).
    Location derived from the output path: the file out.ext and the path `out` with everything below.
    safe_names: every board below the root has a non-empty name without '/', different from ".", "..",
    "index", not ending in the extension, and sibling names differ. *)
@@ -27,16 +28,30 @@ Theorem C34_outputs_distinct : forall ext out root, safe_names ext root = true -
   NoDup (fst (outputs ext out root)) /\ length (fst (outputs ext out root)) = count_boards root.
 Proof. exact outputs_distinct. Qed.
 
-(* On the file system: replaying the render's operations (RemoveAll, MkdirAll + write, stopping at the
-   first error) on ANY file system in which the ancestors of the output directory exist creates,
-   overwrites and deletes nothing outside the location.  The two predicates are the ones check_case
-   evaluates on the listings of the real sandbox. *)
-Theorem C34_effects_confined : forall ext out root f,
-  safe_names ext root = true -> ancestors_exist out f = true ->
-  let f' := fst (run (render ext out root) f) in
+(* On the file system, WHATEVER the board names are (no guard; since fix b8f1f57d8 refuses names with
+   a '..' element): replaying the CLI's operations (refusal, or RemoveAll / MkdirAll + write, stopping
+   at the first error) on ANY file system in which the ancestors of the output directory exist
+   creates, overwrites and deletes nothing outside the location.  The two predicates are the ones
+   check_case evaluates on the listings of the real sandbox. *)
+Theorem C34_effects_confined_all_names : forall ext out root f,
+  is_nil (bname root) = true -> ancestors_exist out f = true ->
+  let f' := fst (run (cli_events ext out root) f) in
   no_creation_outside ext out (files f) (files f') (dirs f) (dirs f') = true
   /\ no_deletion_outside ext out (files f) (files f') (dirs f) (dirs f') = true.
-Proof. exact render_confined. Qed.
+Proof. exact cli_confined_all_names. Qed.
+
+(* a tree with a '..' element in a board name is refused before anything is touched *)
+Theorem C34_dotdot_names_refused : forall ext out root f,
+  refused root = true -> run (cli_events ext out root) f = (f, false).
+Proof. exact dotdot_refused. Qed.
+
+(* the former escape witnesses (layer "../victim", with and without boards of its own) *)
+Theorem C34_dotdot_witness_refused :
+  let r1 := Board [] false [leaf x_victim] [] [] in
+  let r2 := Board [] false [Board x_victim false [leaf [120]] [] []] [] [] in
+  run (cli_events x_svg x_out r1) x_fs = (x_fs, false) /\ run (cli_events x_svg x_out r2) x_fs = (x_fs, false)
+  /\ outputs x_svg x_out r2 = ([], []).
+Proof. exact dotdot_witness_refused. Qed.
 
 (* ... and the run succeeds and leaves exactly one file of this run per board inside the location:
    no file/directory clash, no board's file removed again by a later RemoveAll.  fs_pre: the ancestors
@@ -44,23 +59,12 @@ Proof. exact render_confined. Qed.
    this run's outputs, and for a single-board render the output path is not a directory. *)
 Theorem C34_one_file_per_board_on_fs : forall ext out root f,
   safe_names ext root = true -> ext_wf ext = true -> out <> [] -> fs_pre ext out root f = true ->
-  snd (run (render ext out root) f) = true
-  /\ one_file_per_board ext out root (files (fst (run (render ext out root) f))) false = true.
+  snd (run (cli_events ext out root) f) = true
+  /\ one_file_per_board ext out root (files (fst (run (cli_events ext out root) f))) false = true.
 Proof. exact one_file_per_board_on_fs. Qed.
 
-(* Without the guard every clause fails (each witness is a corpus case of the harness and fails on the
-   real CLI in the same way). *)
-Theorem C34_outputs_inside_root_refuted :
-  exists ext out root p, ext_wf ext = true /\ In p (fst (outputs ext out root)) /\ inside_file_b ext out p = false.
-Proof. exact outputs_inside_root_refuted. Qed.
-
-Theorem C34_removed_inside_root_refuted :
-  exists ext out root q, In q (snd (outputs ext out root)) /\ inside_dir_b out q = false
-    /\ ancestors_exist out x_fs = true
-    /\ no_deletion_outside ext out (files x_fs) (files (fst (run (render ext out root) x_fs)))
-         (dirs x_fs) (dirs (fst (run (render ext out root) x_fs))) = false.
-Proof. exact removed_inside_root_refuted. Qed.
-
+(* Without the guard the distinctness clauses fail (each witness is a corpus case of the harness and
+   fails on the real CLI in the same way). *)
 Theorem C34_outputs_distinct_refuted_index : exists ext out root, ~ NoDup (fst (outputs ext out root)).
 Proof. exact outputs_distinct_refuted_index. Qed.
 
@@ -86,10 +90,10 @@ Print Assumptions C34_ext_stable.
 Print Assumptions C34_outputs_inside_root.
 Print Assumptions C34_removed_inside_root.
 Print Assumptions C34_outputs_distinct.
-Print Assumptions C34_effects_confined.
+Print Assumptions C34_effects_confined_all_names.
+Print Assumptions C34_dotdot_names_refused.
+Print Assumptions C34_dotdot_witness_refused.
 Print Assumptions C34_one_file_per_board_on_fs.
-Print Assumptions C34_outputs_inside_root_refuted.
-Print Assumptions C34_removed_inside_root_refuted.
 Print Assumptions C34_outputs_distinct_refuted_index.
 Print Assumptions C34_outputs_distinct_refuted_slash.
 Print Assumptions C34_one_file_per_board_refuted_ext_suffix.
